@@ -258,7 +258,7 @@ def summarize(prop, h, tier, seed, cases, results, lemma_obs, wall):
         for r in outside: seen_notes.setdefault((r['outcome'], (r['note'] or '')[:120]), _case_repr(cases, r['case']))
         for (oc, note), cr in list(seen_notes.items())[:8]: print(f'  note: {len([1 for r in outside if (r["note"] or "")[:120] == note])} path(s) {oc}: {note}  e.g. case {cr}')
     if violations:
-        code = 1 if code == 0 else code
+        code = 1          # a refuted obligation is reported as such even when the run also shows checker faults (they are printed above)
         for name, fn, conf, wit in violations:
             tail = '' if conf else ' no-failing-input-found'
             print(f'VIOLATION property={prop} replay={fn}{tail}')
